@@ -800,6 +800,7 @@ def judge_sandbox(ctx, case, res):
     want["PATH"] = base_path
     want["LD_LIBRARY_PATH"] = ""
     want["BOB_CWD"] = own
+    want.pop("HOME", None)
     if got != want:
         diff = {k: (got.get(k), want.get(k)) for k in set(got) | set(want) if got.get(k) != want.get(k)}
         leak = any(k in case["host"] and k not in want for k in got)
